@@ -369,7 +369,50 @@ func GenOdd(r *core.PRNG) string {
 	ctl := core.Pick(r, []string{"break", "continue", "break", "if true { break }", "for { break }; break", "switch { case true: continue }", "return"})
 	loop := core.Pick(r, []string{"for", "for i := 0; i < 2; i++", "for _, v := range []int{1, 2}", "for k := range map[string]int{\"a\": 1}"})
 	n := core.Pick(r, wildInts)
-	switch r.Intn(21) {
+	switch r.Intn(23) {
+	case 21, 22:
+		// containers mutated while they are ranged over: deletes ahead of the cursor (across the
+		// key-list compaction), inserts, NaN keys, slices re-sliced and appended to
+		kt := core.Pick(r, []string{"int", "float64", "string", "bool", "byte"})
+		key := func(i int) string {
+			switch kt {
+			case "string":
+				return fmt.Sprintf("%q", fmt.Sprintf("k%d", i))
+			case "bool":
+				return []string{"false", "true"}[i%2]
+			case "float64":
+				return fmt.Sprintf("%d.5", i)
+			}
+			return fmt.Sprint(i)
+		}
+		n := 2 + r.Intn(9)
+		var lit, dels, ins []string
+		for i := 0; i < n; i++ {
+			lit = append(lit, key(i)+": "+fmt.Sprint(i))
+			if r.Chance(3, 4) {
+				dels = append(dels, "delete(m, "+key(i)+")")
+			}
+			if r.Chance(1, 3) {
+				ins = append(ins, "m["+key(n+i)+"] = "+fmt.Sprint(i))
+			}
+		}
+		if kt == "bool" {
+			lit = lit[:2]
+		}
+		body := strings.Join(append(dels, ins...), "; ")
+		switch r.Intn(6) {
+		case 0:
+			return fmt.Sprintf("m := map[%s]int{%s}; c := 0; for k, v := range m { c += v; %s; m[k] = c }; len(m)", kt, strings.Join(lit, ", "), body)
+		case 1:
+			return fmt.Sprintf("m := map[%s]int{%s}; for k := range m { for j := range m { delete(m, j); delete(m, k) }; %s }; len(m)", kt, strings.Join(lit, ", "), body)
+		case 2:
+			return "import \"math\"; m := map[float64]int{}; m[math.Sqrt(-1)] = 1; m[math.Sqrt(-1)] = 2; m[1.5] = 3; n := 0; for k, v := range m { n += v; delete(m, k) }; delete(m, math.Sqrt(-1)); println(len(m), n, m[math.Sqrt(-1)])"
+		case 3:
+			return fmt.Sprintf("import \"golang.org/x/exp/maps\"; m := map[%s]int{%s}; for _, k := range maps.Keys(m) { %s; delete(m, k) }; c := maps.Clone(m); len(c)", kt, strings.Join(lit, ", "), body)
+		case 4:
+			return fmt.Sprintf("xs := []int{1, 2, 3, 4}; for i, v := range xs { xs = append(xs, v); xs = xs[%d:]; if i > %d { break } }; len(xs)", r.Intn(3), r.Intn(5))
+		}
+		return fmt.Sprintf("m := map[%s]int{%s}; %s; for k, v := range m { %s; println(k, v) }; len(m)", kt, strings.Join(lit, ", "), strings.Join(dels, "; "), body)
 	case 20:
 		// long chains of calls in callee position
 		n := 2 + r.Intn(70)
